@@ -383,6 +383,48 @@ Fixpoint store_all (ok : nat) (fields : list string) (arr : list (option Z)) (i 
 Definition results_array (ok : nat) (fields : list string) (sdk_stride n : nat) (rs : list resp) :=
   store_all ok fields (repeat None (sdk_stride * n)%nat) 0%nat rs.
 
+(* min_fidelity_all_at_end: the operation is wrapped in a retry loop (sdk_create_epr_keep,
+   sdk_recv_epr_keep, sdk_create_epr_rsp, sdk_recv_epr_rsp).  Every attempt first undefines
+   the whole results array (_build_cmds_undefine_array), then the controller stores that
+   attempt's responses; the loop ends with the first attempt the exit condition accepts
+   (a test on the attempt's responses: the last pair's duration against the bound derived from
+   the fidelity; the comparison itself is C05's subject and a parameter here) or after
+   max_tries attempts (then the results are discarded; no claim is made about them).
+   None = the environment delivered too few attempts / a store failed. *)
+Definition undefine_all (arr : list (option Z)) : list (option Z) := repeat None (List.length arr).
+
+(* [undef]: the cleanup code of a discarded attempt also undefines the array (keep variants:
+   yes; rsp variants: no - there only the next attempt's start does).  Matters only for what is
+   left when all tries are used up. *)
+Fixpoint retry_run (ok : nat) (fields : list string) (acc : list resp -> bool) (undef : bool) (tries : nat)
+         (arr : list (option Z)) (attempts : list (list resp)) : option (list (option Z)) :=
+  match tries with
+  | O => Some arr
+  | S t =>
+      match attempts with
+      | [] => None
+      | rs :: rest =>
+          match store_all ok fields (undefine_all arr) 0%nat rs with
+          | None => None
+          | Some a => if acc rs then Some a
+                      else retry_run ok fields acc undef t (if undef then undefine_all a else a) rest
+          end
+      end
+  end.
+
+(* the attempt the loop ends with when it ends successfully: the first accepted one among the
+   first [tries] *)
+Fixpoint accepted_attempt (acc : list resp -> bool) (tries : nat) (attempts : list (list resp))
+  : option (list resp) :=
+  match tries with
+  | O => None
+  | S t =>
+      match attempts with
+      | [] => None
+      | rs :: rest => if acc rs then Some rs else accepted_attempt acc t rest
+      end
+  end.
+
 (* handle_i.attr is the future for array[i*stride + idx] *)
 Definition handle_read (stride idx : nat) (arr : list (option Z)) (i : nat) : option (option Z) :=
   nth_error arr (i * stride + idx)%nat.
